@@ -28,6 +28,12 @@ CHECKS = {
             'consecutive ids are pairwise distinct, by the step lemmas), and all random bits are embedded injectively.',
             'Trusted: z3 (cvc5 cross-check in the thorough tier), the AST translator (validated on 259 concrete pairs per run), '
             'secrets.token_bytes being the OS CSPRNG.', '§3 C17'),
+    'C04': (SIM + '; symbolic packet types 0-9, payload selectors, body shapes, dispatch mode and poll-pending flag against a reference dispatcher',
+            'For every body / frame sequence inside the stated bounds, on both servers and both handler dispatch modes, the '
+            'message events, request status, session ending, NOOP answers and heartbeat re-arming equal the reference on '
+            'every execution path; refused bodies produce no message event.',
+            'Trusted: CrossHair, z3, the simulated environment (cooperative schedules only). Known finding F6 (POST blocked '
+            'in close(wait=True)) is waived for exactly the state classes listed in known_findings.json.', '§3 C04'),
 }
 
 NOT_BUILT = 'check not built yet in this round (see DESIGN.md §8 build order); not claimed until it runs'
